@@ -247,6 +247,9 @@ type verifC11Actors struct {
 	n                   int64
 	alice, root, carol  types.Uid
 	tok                 map[string][]byte
+	// lastTok: params.token (base64 text, as received) of the most recent reply of THIS sequence that carried one; the
+	// secret of {login scheme=token secret=prev}. Taken from the recorded reply, never from the table above.
+	lastTok string
 }
 
 func (e *verifC11Env) newActors() *verifC11Actors {
@@ -362,6 +365,11 @@ func (e *verifC11Env) concretiseMap(m map[string]any) (map[string]any, string) {
 	id := e.id()
 	body := map[string]any{"id": id}
 	switch k {
+	case "conn":
+		// the handshake of a fresh connection (the caller has replaced the session)
+		k = "hi"
+		body["ver"] = "0.22"
+		body["ua"] = "verif/1.0 (test)"
 	case "hi":
 		switch verifC11S(m, "v") {
 		case "A":
@@ -396,6 +404,12 @@ func (e *verifC11Env) concretiseMap(m map[string]any) (map[string]any, string) {
 			body["scheme"] = "token"
 			if sec == "malformed" {
 				body["secret"] = verifC11B64([]byte("short"))
+			} else if sec == "prev" {
+				if e.act.lastTok != "" {
+					body["secret"] = e.act.lastTok
+				} else {
+					body["secret"] = verifC11B64([]byte("short")) // the client was never given a token
+				}
 			} else {
 				body["secret"] = verifC11B64(e.act.tok[sec])
 			}
@@ -714,6 +728,29 @@ func (e *verifC11Env) absTopicName(tn string) string {
 		return "newgrp"
 	}
 	return "?" + tn
+}
+
+// tokenOf: the token a reply handed out: (base64 text, code, abstract user, level) of the first {ctrl} with params.token.
+func (e *verifC11Env) tokenOf(frames []verifFrame) (string, int, string, string, bool) {
+	for _, f := range frames {
+		c, ok := f["ctrl"].(map[string]any)
+		if !ok {
+			continue
+		}
+		p, ok := c["params"].(map[string]any)
+		if !ok {
+			continue
+		}
+		tok, ok := p["token"].(string)
+		if !ok || tok == "" {
+			continue
+		}
+		code, _ := c["code"].(float64)
+		u, _ := p["user"].(string)
+		l, _ := p["authlvl"].(string)
+		return tok, int(code), e.abs(u), l, true
+	}
+	return "", 0, "", "", false
 }
 
 // abstract view of the frames of one step: ctrl codes/ids, meta ids + whose desc, data from/sender.
